@@ -22,10 +22,25 @@ import (
 )
 
 const (
-	repoDir  = "/repo"
 	verifDir = "/verif"
 	modPath  = "github.com/smart-core-os/sc-golang"
 )
+
+// repoDir is the tree under check. The registered commands always check /repo; SYMGO_REPO points the tooling that
+// evaluates seeded changes at a scratch clone instead (outDir then keeps its evidence and replays out of /verif).
+var (
+	repoDir = "/repo"
+	outDir  = verifDir
+)
+
+func init() {
+	if v := os.Getenv("SYMGO_REPO"); v != "" {
+		repoDir = v
+	}
+	if v := os.Getenv("SYMGO_OUT"); v != "" {
+		outDir = v
+	}
+}
 
 func main() {
 	if len(os.Args) < 2 {
